@@ -449,10 +449,10 @@ theorem chars_ne_nil {s : Str} (h : s.isEmpty = false) : chars s ≠ [] := by
   | cons a r => simp [chars]
 
 /-- the client address both stacks append to the route: REMOTE_ADDR vs scope['client'][0], both defaulting to 127.0.0.1 -/
-theorem client_agree (c : Conn) (l : Lib) (hn : l.clientNull = false) :
+theorem client_agree (c : Conn) (l : Lib) :
     asgiClient (toScope c l) = .ok (match c.client with | some a => a.1 | none => LOOPBACK) := by
   unfold asgiClient toScope
-  cases c.client <;> simp [hn]
+  cases c.client <;> cases l.clientNull <;> simp
 
 theorem wsgiRemoteAddr_eq (c : Conn) (l : Lib) :
     wsgiRemoteAddr (toEnviron c l) = chars (match c.client with | some a => a.1 | none => LOOPBACK) := by
@@ -470,18 +470,20 @@ theorem remote_ne_nil (c : Conn) (hc : wfClient c = true) : chars (match c.clien
 
 /-- **access_route**: the route built from Forwarded / X-Forwarded-For / X-Real-IP (same header values on both stacks, `Fw.accessRoute`
     of C09) completed with REMOTE_ADDR (WSGI) / scope['client'][0] (ASGI) -/
-theorem access_route_agree (c : Conn) (l : Lib) (hreq : Wr.wfReq (toHReq c) = true) (hc : wfClient c = true) (hn : l.clientNull = false) :
+theorem access_route_agree (c : Conn) (l : Lib) (hreq : Wr.wfReq (toHReq c) = true) (hc : wfClient c = true) :
     asgiAccessRoute (toScope c l) (Wr.asgiStore (toScope c l).headers) = .ok (wsgiAccessRoute (toEnviron c l)) := by
-  unfold asgiAccessRoute wsgiAccessRoute
-  rw [client_agree c l hn, env_FORWARDED c l hreq, env_XFF c l hreq, env_XRI c l hreq, wsgiRemoteAddr_eq]
+  unfold asgiAccessRoute asgiAccessRouteOf wsgiAccessRoute
+  rw [client_agree c l, env_FORWARDED c l hreq, env_XFF c l hreq, env_XRI c l hreq, wsgiRemoteAddr_eq]
   simp only [Fw.accessRoute]
   rw [finishRoute_asgi_irrelevant _ _ (remote_ne_nil c hc)]
 
 /-- **remote_addr**: `env['REMOTE_ADDR']` (default 127.0.0.1) vs the LAST element of the ASGI access_route -/
-theorem remote_addr_agree (c : Conn) (l : Lib) (hreq : Wr.wfReq (toHReq c) = true) (hc : wfClient c = true) (hn : l.clientNull = false) :
+theorem remote_addr_agree (c : Conn) (l : Lib) (hreq : Wr.wfReq (toHReq c) = true) (hc : wfClient c = true) :
     asgiRemoteAddr (toScope c l) (Wr.asgiStore (toScope c l).headers) = .ok (wsgiRemoteAddr (toEnviron c l)) := by
-  unfold asgiRemoteAddr
-  rw [access_route_agree c l hreq hc hn]
+  have h := access_route_agree c l hreq hc
+  unfold asgiAccessRoute at h
+  unfold asgiRemoteAddr asgiRemoteAddrOf
+  rw [h]
   simp only [wsgiAccessRoute, Fw.accessRoute, getLast_finishRoute]
 theorem stripSlash_ne_nil (on : Bool) (p : Str) (h : p ≠ []) : stripSlash on p ≠ [] := by
   unfold stripSlash
@@ -506,21 +508,20 @@ theorem path_ne_nil (c : Conn) (l : Lib) (strip : Bool) : asgiPath (toScope c l)
 /-! ### the whole view -/
 /-- **WSGI and ASGI describe the same request line and connection.**  For every wire request of the domain `wfConn`
     (ASCII request-target, upper-case method, scheme http/https, ASCII mount point, non-empty client address if any, header
-    names ASCII without `_` and no repeated singleton header; the ASGI server tells its own address and reports an unknown client
-    by omission), every liberty the two specs leave to the servers (`Lib`) and all eight settings of the request options:
+    names ASCII without `_` and no repeated singleton header; the ASGI server tells its own address), every liberty the two specs leave to the servers (`Lib`) and all eight settings of the request options:
     method, path, query_string, params, root_path (= app), scheme, host, port, netloc, remote_addr and access_route of
     `falcon.Request(environ)` and `falcon.asgi.Request(scope)` are the same values / the same HTTPInvalidHeader. -/
 theorem request_view_agree (c : Conn) (l : Lib) (o : Opts) (h : wfConn c l = true) :
     wsgiView (toEnviron c l) o = asgiView (toScope c l) o := by
   simp only [wfConn, Bool.and_eq_true] at h
   obtain ⟨⟨⟨⟨⟨⟨ht, hm⟩, hs⟩, hr⟩, hc⟩, hl⟩, hreq⟩ := h
-  simp only [wfLib, Bool.and_eq_true, decide_eq_true_eq, Bool.not_eq_true'] at hl
-  obtain ⟨hsv, hcn⟩ := hl
+  simp only [wfLib, decide_eq_true_eq] at hl
+  have hsv := hl
   unfold wsgiView asgiView
   simp only
   rw [method_agree c l hm, path_agree, query_string_agree c l ht, params_agree c l ht, root_path_agree c l hr, scheme_agree,
-      host_agree c l hreq hsv, port_agree c l hreq hs hsv, netloc_agree c l hreq hs hsv, remote_addr_agree c l hreq hc hcn,
-      access_route_agree c l hreq hc hcn]
+      host_agree c l hreq hsv, port_agree c l hreq hs hsv, netloc_agree c l hreq hs hsv, remote_addr_agree c l hreq hc,
+      access_route_agree c l hreq hc]
 
 /-! ### the exclusions are exact (not only necessary on a witness) -/
 theorem method_agree_iff (c : Conn) (l : Lib) :
@@ -707,14 +708,17 @@ theorem empty_client_witness :
     ∧ asgiAccessRoute (toScope c {}) (Wr.asgiStore (toScope c {}).headers) = .ok []
     ∧ asgiRemoteAddr (toScope c {}) (Wr.asgiStore (toScope c {}).headers) = .exc ∧ wfClient c = false := by decide
 
-/-- `scope['client'] = None` (the spec's default, sent explicitly): `client, __ = None` is a TypeError; WSGI without REMOTE_ADDR
-    answers 127.0.0.1 -/
-theorem client_none_witness :
+/-- REGRESSION witness (finding F36, fixed by 9e26a7e): with `scope['client'] = None` the code before the fix (`except KeyError` only:
+    `asgiClientPinned`) raised TypeError from remote_addr / access_route where WSGI without REMOTE_ADDR answers 127.0.0.1; the repaired
+    code (`asgiClient`) answers 127.0.0.1 like for a missing key, and the request is inside the domain -/
+theorem client_none_regression_witness :
+    let s := toScope c0 { clientNull := true }
     wsgiRemoteAddr (toEnviron c0 { clientNull := true }) = "127.0.0.1".toList
-    ∧ asgiRemoteAddr (toScope c0 { clientNull := true }) (Wr.asgiStore (toScope c0 { clientNull := true }).headers) = .exc
-    ∧ asgiAccessRoute (toScope c0 { clientNull := true }) (Wr.asgiStore (toScope c0 { clientNull := true }).headers) = .exc
-    ∧ asgiRemoteAddr (toScope c0 {}) (Wr.asgiStore (toScope c0 {}).headers) = .ok "127.0.0.1".toList
-    ∧ wfLib { clientNull := true } = false := by decide
+    ∧ asgiRemoteAddrOf (asgiClientPinned s) (Wr.asgiStore s.headers) = .exc
+    ∧ asgiAccessRouteOf (asgiClientPinned s) (Wr.asgiStore s.headers) = .exc
+    ∧ asgiRemoteAddr s (Wr.asgiStore s.headers) = .ok "127.0.0.1".toList
+    ∧ asgiAccessRoute s (Wr.asgiStore s.headers) = .ok ["127.0.0.1".toList]
+    ∧ wfConn c0 { clientNull := true } = true := by decide
 
 /-- an ASGI server that does not tell its own address (`server` missing or None), no Host header: falcon invents localhost:80 -/
 theorem server_missing_witness :
